@@ -1,6 +1,8 @@
 //@unit sm2_fp
 //@serves C03 C04 C05 C06 C11 C15 C19 C20
 //@source gm-sm2/src/fields/fp64.rs
+//@assume rewrite: `u64::from(carry)` on a bool is the cast `carry as u64` (0 for false, 1 for true; core's `impl From<bool> for u64` is exactly this cast, vstd has no spec for it) - declared textual rewrite, one site in fp_div2
+//@rewrite-text u64::from(carry) ==> (carry as u64)
 //@include-spec sm2_math
 //@section spec
 use core::fmt::Debug;
@@ -48,7 +50,9 @@ trait FieldModOperation: Sized + Copy + Clone + PartialEq + Eq + Debug {
     fn fp_neg(&self) -> (r: Self)
         requires canon(self.lv())
         ensures canon(r.lv()), fe(r.lv()) == (P() - fe(self.lv())) % P();
-    fn fp_div2(&self) -> (r: Self);
+    fn fp_div2(&self) -> (r: Self)
+        requires canon(self.lv())
+        ensures canon(r.lv()), (2 * fe(r.lv())) % P() == fe(self.lv());
     fn fp_inv(&self) -> (r: Self)
         requires canon(self.lv())
         ensures canon(r.lv()), fe(r.lv()) == inv_p(fe(self.lv()));
@@ -270,6 +274,64 @@ pub proof fn lemma_fp_neg_post(a: int, v: int)
         lemma_fev_sub(v, 0, a);
         lemma_fp_mod_shift(fev(0) - fev(a), 1, P());
     }
+}
+// ---------------------------------------------------------------- halving
+// one limb of the 256-bit right shift by one: the new limb is the old one halved plus the low bit of the next limb on top
+pub proof fn lemma_fp_shr1(x: u64, y: u64)
+    ensures 2 * (((x >> 1) | ((y & 1) << 63)) as int) == x as int - (x & 1) as int + 0x1_0000_0000_0000_0000int * (y & 1) as int,
+        (x & 1) <= 1, (y & 1) <= 1
+{
+    let n = (x >> 1) | ((y & 1) << 63);
+    assert(n == (x >> 1) + (y & 1) * 0x8000_0000_0000_0000 && (x >> 1) + (y & 1) * 0x8000_0000_0000_0000 <= 0xffff_ffff_ffff_ffff
+        && x == 2 * (x >> 1) + (x & 1) && (x & 1) <= 1 && (y & 1) <= 1 && (x >> 1) <= 0x7fff_ffff_ffff_ffff) by(bit_vector)
+        requires n == (x >> 1) | ((y & 1) << 63);
+}
+// the 256-bit right shift by one across four limbs, with c shifted in on top
+pub proof fn lemma_fp_shr256(a: Seq<u64>, c: u64, n: Seq<u64>)
+    requires a.len() == 4, n.len() == 4, c <= 1,
+        n[0] == (a[0] >> 1) | ((a[1] & 1) << 63), n[1] == (a[1] >> 1) | ((a[2] & 1) << 63),
+        n[2] == (a[2] >> 1) | ((a[3] & 1) << 63), n[3] == (a[3] >> 1) | ((c & 1) << 63),
+    ensures 2 * val4(n) == val4(a) - (a[0] & 1) as int + (if c == 1 { r256() } else { 0 })
+{
+    let a0 = a[0]; let a1 = a[1]; let a2 = a[2]; let a3 = a[3];
+    lemma_fp_shr1(a0, a1); lemma_fp_shr1(a1, a2); lemma_fp_shr1(a2, a3); lemma_fp_shr1(a3, c);
+    assert(c & 1 == c) by(bit_vector) requires c <= 1;
+    let b0 = (a0 & 1) as int; let b1 = (a1 & 1) as int; let b2 = (a2 & 1) as int; let b3 = (a3 & 1) as int; let b4 = c as int;
+    let n0 = n[0] as int; let n1 = n[1] as int; let n2 = n[2] as int; let n3 = n[3] as int;
+    assert(2 * n0 == a0 as int - b0 + 0x1_0000_0000_0000_0000int * b1);
+    assert(2 * n1 == a1 as int - b1 + 0x1_0000_0000_0000_0000int * b2);
+    assert(2 * n2 == a2 as int - b2 + 0x1_0000_0000_0000_0000int * b3);
+    assert(2 * n3 == a3 as int - b3 + 0x1_0000_0000_0000_0000int * b4);
+}
+// the value that is shifted (x when x is even, x + p when x is odd) is even: the low limb of it has low bit 0
+pub proof fn lemma_fp_div2_parity(x: Seq<u64>, p: Seq<u64>, s: Seq<u64>, c: bool, odd: bool)
+    requires x.len() == 4, p.len() == 4, s.len() == 4,
+        odd ==> val4(s) + (if c { r256() } else { 0 }) == val4(x) + val4(p),
+        !odd ==> s =~= x && !c,
+        odd == ((x[0] & 1) == 1), (p[0] & 1) == 1,
+    ensures (s[0] & 1) == 0
+{
+    let x0 = x[0]; let p0 = p[0]; let s0 = s[0];
+    assert(x0 as int == 2 * ((x0 >> 1) as int) + (x0 & 1) as int && (x0 & 1) <= 1) by(bit_vector);
+    assert(p0 as int == 2 * ((p0 >> 1) as int) + (p0 & 1) as int && (p0 & 1) <= 1) by(bit_vector);
+    assert(s0 as int == 2 * ((s0 >> 1) as int) + (s0 & 1) as int && (s0 & 1) <= 1) by(bit_vector);
+    if odd {
+        let hx = x[1] as int + 0x1_0000_0000_0000_0000int * (x[2] as int + 0x1_0000_0000_0000_0000int * (x[3] as int));
+        let hp = p[1] as int + 0x1_0000_0000_0000_0000int * (p[2] as int + 0x1_0000_0000_0000_0000int * (p[3] as int));
+        let hs = s[1] as int + 0x1_0000_0000_0000_0000int * (s[2] as int + 0x1_0000_0000_0000_0000int * (s[3] as int));
+        let cc: int = if c { 0x8000_0000_0000_0000int * 0x1_0000_0000_0000_0000int * 0x1_0000_0000_0000_0000int * 0x1_0000_0000_0000_0000int } else { 0 };
+        let m = ((x0 >> 1) as int) + ((p0 >> 1) as int) + 1 - ((s0 >> 1) as int) + 0x8000_0000_0000_0000int * (hx + hp - hs) - cc;
+        assert((s0 & 1) as int == 2 * m);
+    }
+}
+// h is half of x (x even) or of x + p (x odd): doubling h gives x back modulo p, also after Montgomery decoding
+pub proof fn lemma_fp_div2_post(x: int, h: int, t: int)
+    requires 0 <= x < P(), 2 * h == t, t == x || t == x + P()
+    ensures 0 <= h < P(), (2 * fev(h)) % P() == fev(x)
+{
+    lemma_params();
+    if t == x + P() { lemma_fp_mod_shift(x, 1, P()); }
+    lemma_fev_add(x, h, h);
 }
 // ---------------------------------------------------------------- Montgomery reduction
 // core: z + ((z mod R) * p' mod R) * p is divisible by R when p * p' == -1 (mod R)
@@ -663,23 +725,38 @@ impl FieldModOperation for U256 {
         }
     }
 
-    #[verifier::external_body]
     fn fp_div2(&self) -> Self {
         let mut r = self.clone();
         let mut c = 0;
+        proof { lemma_fp_consts(); lemma_val4_bounds(self@); }
         if r[0] & 0x01 == 1 {
-            r = self.fp_add(&SM2_P);
-            c = u64::from(u256_add(&self, &SM2_P).1)
+            let (sum, carry) = u256_add(&self, &SM2_P);
+            r = sum;
+            c = (carry as u64)
         } else {
             r[0] = self[0];
             r[1] = self[1];
             r[2] = self[2];
             r[3] = self[3];
         }
+        let ghost r0 = r@;
+        let ghost odd = (self@[0] & 1) == 1;
+        proof {
+            let x0 = self@[0];
+            assert(x0 & 0x01 == 1 || x0 & 0x01 == 0) by(bit_vector);
+            assert(SM2_P@[0] & 1 == 1) by(compute);
+            assert(!odd ==> r0 =~= self@);
+            lemma_fp_div2_parity(self@, SM2_P@, r0, c == 1, odd);
+        }
         r[0] = (r[0] >> 1) | ((r[1] & 1) << 63);
         r[1] = (r[1] >> 1) | ((r[2] & 1) << 63);
         r[2] = (r[2] >> 1) | ((r[3] & 1) << 63);
         r[3] = (r[3] >> 1) | ((c & 1) << 63);
+        proof {
+            lemma_fp_shr256(r0, c, r@);
+            let tt = val4(r0) + (if c == 1 { r256() } else { 0 });
+            lemma_fp_div2_post(val4(self@), val4(r@), tt);
+        }
         r
     }
 
